@@ -275,6 +275,9 @@ def sig(x, depth=0, memo=None):
         return "T:" + type(x).__name__
 
 
+MEMO_PARAMS = {"_dataset_info_cache"}
+
+
 class NewMonitor:
     def __init__(self):
         self.hits = 0
@@ -302,6 +305,11 @@ class NewMonitor:
                 for p in cls._parameters[len(ops):]:
                     ops.append(kwargs[p] if p in kwargs else cls._defaults[p])
                 ops = [unpack(o) for o in ops]
+                # memo operands that the expression fills in place while its name is computed (deliberately not part of the
+                # name, which covers a checksum of the files instead): not an operand difference
+                for i_, p_ in enumerate(cls._parameters[: len(ops)]):
+                    if p_ in MEMO_PARAMS and i_ < len(inst.operands) and ((ops[i_] is None) != (inst.operands[i_] is None)):
+                        ops[i_] = inst.operands[i_]
                 same = type(inst) is cls and len(ops) == len(inst.operands) and all(a is b for a, b in zip(ops, inst.operands))
                 if not same:
                     mon.hits += 1
